@@ -919,6 +919,7 @@ func fieldMinLenInvariant(info *types.Info, x ast.Expr, need int, all []*boundsF
 		return "", false
 	}
 	writes := 0
+	boundsAllFns = all
 	for _, bf := range all {
 		var an *bodyAnalysis
 		get := func() *bodyAnalysis {
@@ -1005,6 +1006,13 @@ func fieldMinLenInvariant(info *types.Info, x ast.Expr, need int, all []*boundsF
 }
 
 // exprMinLen: is v a slice with at least need elements at node at?
+// boundsAllFns / boundsDepth: the functions of the run (set by fieldMinLenInvariant) and the helper nesting depth,
+// for exprMinLen's look into list-building helpers.
+var (
+	boundsAllFns []*boundsFn
+	boundsDepth  int
+)
+
 func exprMinLen(info *types.Info, v ast.Expr, need int, an func() *bodyAnalysis, at ast.Node, self *types.Var) bool {
 	switch e := ast.Unparen(v).(type) {
 	case *ast.CompositeLit:
@@ -1015,6 +1023,44 @@ func exprMinLen(info *types.Info, v ast.Expr, need int, an func() *bodyAnalysis,
 				return true
 			}
 			return exprMinLen(info, e.Args[0], need-(len(e.Args)-1), an, at, self)
+		}
+		// a function of the module every return of which is long enough (the list is built by a helper)
+		var callee *types.Func
+		switch f := e.Fun.(type) {
+		case *ast.Ident:
+			callee, _ = info.Uses[f].(*types.Func)
+		case *ast.SelectorExpr:
+			callee, _ = info.Uses[f.Sel].(*types.Func)
+		}
+		if callee != nil && boundsDepth < 3 {
+			for _, bf := range boundsAllFns {
+				if bf.obj != callee || bf.body == nil {
+					continue
+				}
+				boundsDepth++
+				defer func() { boundsDepth-- }()
+				var han *bodyAnalysis
+				hget := func() *bodyAnalysis {
+					if han == nil {
+						han = analyseBody(bf)
+					}
+					return han
+				}
+				nRet, okAll := 0, true
+				ast.Inspect(bf.body, func(n ast.Node) bool {
+					if _, isLit := n.(*ast.FuncLit); isLit {
+						return false
+					}
+					if rs, isRet := n.(*ast.ReturnStmt); isRet {
+						nRet++
+						if len(rs.Results) != 1 || !exprMinLen(bf.pk.TypesInfo, rs.Results[0], need, hget, rs, self) {
+							okAll = false
+						}
+					}
+					return true
+				})
+				return nRet > 0 && okAll
+			}
 		}
 		return false
 	case *ast.SelectorExpr:
